@@ -2132,9 +2132,9 @@ def u_setcover():
         c.prove("post:COMPLETE-every-such-choice-is-admitted", z3.Implies(spec, H), prop=None, kind="complete")
         c.prove("post:exactly-the-subset-columns-are-created", z3.BoolVal(set(sol.created) == {"subset"}), prop=P)
         objs = getattr(sol, "objectives", [])
-        c.prove("post:the-objective-is-set-exactly-once,-to-be-minimised", z3.BoolVal(len(objs) == 1 and objs[0][1] == "minimize"), prop=P)
-        if len(objs) == 1:
-            c.prove("post:objective=total-weight-of-the-chosen-subsets", objs[0][0] == st["OS"](m), prop=P)
+        c.prove("post:an-objective-is-set,-the-one-in-force-is-to-be-minimised", z3.BoolVal(len(objs) >= 1 and objs[-1][1] == "minimize"), prop=P)
+        if len(objs) >= 1:
+            c.prove("post:the-objective-in-force=total-weight-of-the-chosen-subsets", objs[-1][0] == st["OS"](m), prop=P)
 
     def concrete(inst):
         def hc(c, f):
